@@ -18,11 +18,11 @@ def P(i, kind, q="", ins=(), outs=(), phase="conc"):
 
 
 def scn(name, procs, secrets=("s1",), lq=(("lq1", "UNPAID", "none", ""),), mq=(), used=(), pend=(), signed=(), mutex=True,
-        crash=False, faults=False, ln="truth", releasecheck=True, pollguard=True, pollnotfound=False, expect="hold"):
+        crash=False, faults=False, ln="truth", releasecheck=True, pollguard=True, pollnotfound=False, checklocked=True, expect="hold"):
     return {"name": name, "secrets": list(secrets), "used": list(used), "pend": [{"s": s, "q": q} for s, q in pend],
             "signed": list(signed), "lq": [{"q": q, "st": st, "pay": pay, "internal": i} for q, st, pay, i in lq],
             "mq": [{"q": q, "st": st, "settled": se} for q, st, se in mq], "mutex": mutex, "crash": crash, "faults": faults, "ln": ln,
-            "releasecheck": releasecheck, "pollguard": pollguard, "pollnotfound": pollnotfound, "procs": procs, "expect": expect}
+            "releasecheck": releasecheck, "pollguard": pollguard, "pollnotfound": pollnotfound, "checklocked": checklocked, "procs": procs, "expect": expect}
 
 
 LQ2 = (("lq1", "UNPAID", "none", ""), ("lq2", "UNPAID", "none", ""))
@@ -42,6 +42,8 @@ def design_scenarios():
         scn("swap-checkstate", [sw(1), P(2, "checkstate", ins=["s1"])], lq=PENDQ, pend=(("s1", "lq1"),)),
         scn("melt-pollmelt-swap", [P(1, "melt", "lq1", ["s1"]), P(2, "pollmelt", "lq1"), sw(3)]),
         scn("melt-checkstate-swap", [P(1, "melt", "lq1", ["s1"]), P(2, "checkstate", ins=["s1"]), sw(3)]),
+        scn("melt-checkstate-checkstate", [P(1, "melt", "lq1", ["s1"]), P(2, "checkstate", ins=["s1"]), P(3, "checkstate", ins=["s1"])]),
+        scn("pollmelt-checkstate-swap", [P(1, "pollmelt", "lq1"), P(2, "checkstate", ins=["s1"]), sw(3)], lq=PENDQ, pend=(("s1", "lq1"),)),
         # four requests: beyond what the schedule explorer enumerates on the real mint
         scn("melt-poll-melt-swap", [P(1, "melt", "lq1", ["s1"]), P(2, "pollmelt", "lq1"), P(3, "melt", "lq1", ["s1"]), sw(4)]),
         scn("melt-poll-melt2-swap", [P(1, "melt", "lq1", ["s1"]), P(2, "pollmelt", "lq1"), P(3, "melt", "lq2", ["s1"]), sw(4)], lq=LQ2),
@@ -92,6 +94,11 @@ def design_scenarios():
         scn("melt-pollmelt-swap/poll-notfound-releases", [P(1, "melt", "lq1", ["s1"]), P(2, "pollmelt", "lq1"), sw(3)], pollnotfound=True),
         scn("melt-pollmelt-swap/poll-notfound-releases/no-poll-guard", [P(1, "melt", "lq1", ["s1"]), P(2, "pollmelt", "lq1"), sw(3)],
             pollnotfound=True, pollguard=False, expect="fail"),
+        # a state check that reads the pending and the spent table without the lock reports a secret UNSPENT while a melt is
+        # moving it from one to the other
+        scn("melt-checkstate/check-unlocked", [P(1, "melt", "lq1", ["s1"]), P(2, "checkstate", ins=["s1"])], checklocked=False, expect="fail"),
+        scn("pollmelt-checkstate/check-unlocked", [P(1, "pollmelt", "lq1"), P(2, "checkstate", ins=["s1"])], lq=PENDQ, pend=(("s1", "lq1"),),
+            checklocked=False, expect="fail"),
         scn("melt-poll-melt-swap/no-poll-guard", [P(1, "melt", "lq1", ["s1"]), P(2, "pollmelt", "lq1"), P(3, "melt", "lq1", ["s1"]), sw(4)],
             pollguard=False, expect="fail"),
     ]
@@ -120,6 +127,7 @@ CHECK_DEADLOCK FALSE
 VIEW View
 INVARIANT Inv_NoDoubleUse
 INVARIANT Inv_IssueOnce
+INVARIANT Inv_CheckTruth
 INVARIANT Inv_Quiet
 INVARIANT Inv_CrashReport
 INVARIANT Inv_FaultReport
